@@ -76,7 +76,7 @@ def gen_case(rng, tier="quick", force=None):
         else:
             ty.append(types[:])
     pos = [[[dec(rng, -1.5, float(L[j]) + 1.5, 3) for j in range(d)] for _ in range(N)] for _ in range(T)]
-    c = {"d": d, "T": T, "N": N, "K": K, "L": L, "ty": ty, "pos": pos}
+    c = {"d": d, "T": T, "N": N, "K": K, "L": L, "ty": ty, "pos": pos, "again": rng.choice([0, 0, 0, 1, 2])}
     if rng.random() < 0.5:
         nq = rng.randint(1, 24 if big else 10)
         vs = []
@@ -105,6 +105,34 @@ def gen_case(rng, tier="quick", force=None):
         c["qrange"] = dec(rng, want * math.pi / Lmax, want * math.pi / Lmax, 3)
         c["onlypos"] = rng.choice(["F", "F", "T", "x", "y", "z"])
     return c
+
+
+SIZES = [32, 64, 96, 128, 255, 256, 257, 384, 500, 512, 768, 1000, 1024]
+
+
+def gen_size_case(rng, K=None, n=None):
+    """size stream: species populations at / next to block boundaries (2^k, 3·2^k, 1000); judged by the numpy brute force of the
+    statement only (the exact-ℚ driver is not run at this size) — a labelled test supporting the tie, not a theorem"""
+    d = rng.choice([2, 3])
+    K = K or rng.choice([1, 2, 2, 3])
+    counts = [n or rng.choice(SIZES)] + [rng.choice([rng.choice(SIZES[:8]), rng.randint(1, 40)]) for _ in range(K - 1)]
+    rng.shuffle(counts)
+    N = sum(counts)
+    types = [k + 1 for k, n in enumerate(counts) for _ in range(n)]
+    rng.shuffle(types)
+    T = rng.choice([1, 2])
+    L = [rng.choice(["6.5", "8", "9.25", "7.3"]) for _ in range(d)]
+    while len(set(L)) < d:
+        L = [rng.choice(["6.5", "8", "9.25", "7.3"]) for _ in range(d)]
+    g = np.random.default_rng(rng.randint(0, 10 ** 9))
+    pos = [[[format(x, ".3f") for x in row] for row in np.round(g.uniform(0, 1, size=(N, d)) * np.array([float(x) for x in L]), 3)]
+           for _ in range(T)]
+    vs = []
+    while len(vs) < 5:
+        v = [rng.randint(-3, 3) for _ in range(d)]
+        if any(v) and v not in vs and [-x for x in v] not in vs:
+            vs.append(v)
+    return {"d": d, "T": T, "N": N, "K": K, "L": L, "ty": [types[:] for _ in range(T)], "pos": pos, "vec": vs, "size": counts}
 
 
 def op_line(c, mode="impl", vectors=None):
@@ -165,6 +193,9 @@ def real_run(c, outputfile=None):
         kw["outputfile"] = outputfile
         kw["saveqvectors"] = True
     obj = sq(snapshots_of(c), **kw)
+    # object history: earlier compute calls on the SAME object (the judged result is the last one)
+    for k in range(c.get("again", 0)):
+        (obj.getresults if k == 0 else obj.unary)()
     res = obj.getresults()
     if res is None:
         raise ValueError("getresults() returned None")
@@ -400,6 +431,13 @@ def correspond(run):
     dis, mon = run_cases(run, cases)
     wbad = wave_sweep(run)
     run.coverage["traces_validated_against_impl"] = run.coverage["evaluations"]
+    for _ in range(4 if run.tier == "quick" else 24):
+        c = gen_size_case(run.rng)
+        run.hist("stream", "size"); run.hist("size_population", max(c["size"]))
+        run.count({k: c[k] for k in ("size", "vec", "L", "T")}, True)
+        w = failing(c)
+        if w:
+            mon.append((c, w[1]))
     broken = []
     if dis:
         broken.append({"kind": "correspondence", "name": "Pms.Sq.Method.table~sq.getresults",
@@ -468,7 +506,7 @@ def failing(c):
         return None
     exp = py_spec(c, vecs)
     why = compare_tables(real, exp, "density-mode definition, numpy brute force")
-    if why is None and os.path.exists(common.DRIVER):
+    if why is None and os.path.exists(common.DRIVER) and "size" not in c:
         try:
             o = common.drive([op_line(c, "spec", vectors=vecs)])[0]
             if o != "bad-op":
@@ -511,7 +549,7 @@ def shrink(c):
                 if still(cand):
                     best, changed = cand, True
                     break
-    changed = True
+    changed = "size" not in best          # size stream: the populations are the point, keep them
     while changed and best["N"] > 1:
         changed = False
         for i in range(best["N"] - 1, -1, -1):
@@ -551,6 +589,7 @@ def search(run, broken):
         pool = list(b.get("cases", []))
         if extra is None:
             extra = directed_cases(run.rng) + [gen_case(run.rng) for _ in range(150 if run.tier == "quick" else 1500)]
+            extra += [gen_size_case(run.rng, K, n) for K in (1, 2, 3) for n in SIZES]
         for c in pool + extra:
             tried += 1
             try:
